@@ -211,10 +211,31 @@ TEXT["C16"] = {
             "informational options (--help, --version, --cpu-info, --test, -S, -R) are modelled only by exit status.",
     "technique": "Lean 4 refinement proof (bounded parser -> exact-integer parser, all strings), exactness of checked arithmetic, regenerated grammar/dispatch facts + correspondence on the real binary"}
 
+TEXT["C12"] = {
+    "text": "Proof (Lean 4), partial: the part of C12 that is arithmetic is proved for all inputs - the 720-entry primePi "
+            "table is only indexed inside it and its values are monotone and <= 128, so the small-prime copy [a, b) has "
+            "a <= b <= 128 and b - a cannot wrap (ASSERT(a <= b)); after initNextPrimes the buffer holds the cached primes "
+            "and, whenever a segment will be sieved, 64 more slots, for EVERY value of the floating-point estimate and any "
+            "previous buffer size (ASSERT(primes.size() >= *size), ASSERT(i + 64 <= maxSize)); every slot written by the "
+            "4-way unrolled default loop (surplus stores and all-zero words included), by the 8-lane AVX512 stores and by the "
+            "growing backward loop lies inside the buffer, for arbitrary popcounts per word; bitValues[ctz64(bits)] (65 "
+            "entries, ctz64(0) = 64) and unsetSmaller/unsetLarger[byteRemainder] (37 entries) are in bounds; nth_prime's "
+            "negation, the command line's n*20 and the calculator's signed + - * cannot overflow silently. All 90 ASSERT sites "
+            "are regenerated from the sources on every run into a ledger that maps each to its theorem or to 'runtime' (a "
+            "new, removed or edited assertion breaks the ledger theorem). What no executable model can exhibit - use-after-"
+            "free, double free, uninitialised reads, misalignment, leaks - is covered only by the tie: iter (incl. moved-"
+            "from / self-moved / repeated clear), iterc (reuse after error, repeated free), store, print, count, calc and "
+            "cli streams all execute the real code built with ASan + UBSan + ENABLE_ASSERT; an abort is a violation whose "
+            "replay is the bisected operation.",
+    "design_ref": "DESIGN.md section 8 C12",
+    "note": "81 of 90 assertions and all allocator-level memory safety are checked at run time by sanitizers on the explored "
+            "inputs, not proved. " + _IGEN,
+    "technique": "Lean 4 proof of buffer/table index bounds and signed side conditions + regenerated assertion ledger; sanitizer-instrumented correspondence runs as tie"}
+
 NOT_APPLICABLE = [
     {"property_id": "C18",
      "reason": "|R(x)-pi(x)| < sqrt(x) on [2,2^64) is an RH-strength statement about pi(x) evaluated in x87 long double; "
                "Lean/Mathlib can neither state the float semantics nor prove the bound; see DESIGN.md section 8 C18"},
 ]
-for _p in [x for x in ["C12"] if x not in TEXT]:
+for _p in [x for x in [] if x not in TEXT]:
     NOT_APPLICABLE.append({"property_id": _p, "reason": "not claimed yet: model/theorems under construction (will be claimed once its check exists)"})
